@@ -70,6 +70,8 @@ MUTANTS = [
                                                          "        saved, self._parameters = self._parameters, []\n        prog = copy.deepcopy(self)\n"),
                                                      (P, "        return prog\n\n    def __len__", "        self._parameters = saved\n        return prog\n\n    def __len__")]),
  ("c13_serialize_normalises_in_place", "C13", [(P, "        for op in self.operations:\n            if len(op[\"modes\"]) == 1:", "        for op in self.operations:\n            if \"args\" in op and not op[\"args\"] and not op[\"kwargs\"]:\n                del op[\"args\"], op[\"kwargs\"]\n            if len(op[\"modes\"]) == 1:")]),
+ ("c13_parameters_detached_during_copy", "C13", [(P, "        prog = copy.deepcopy(self)\n        prog._parameters = [] # pylint: disable=protected-access\n",
+                                                    "        params, self._parameters = self._parameters, []  # no need to copy the symbols\n        prog = copy.deepcopy(self)\n        self._parameters = params\n")]),
  ("c13_digraph_cached_object", "C13", [(U, "    grid = {}\n\n    for idx, op in enumerate(program.operations):", "    cached = getattr(program, '_graph_cache', None)\n    if cached is not None and cached[0] == repr(program.operations):\n        return cached[1]\n    grid = {}\n\n    for idx, op in enumerate(program.operations):"),
                                        (U, "            G.add_edge(cmds[i-1][0], cmds[i][0])\n\n    return G", "            G.add_edge(cmds[i-1][0], cmds[i][0])\n\n    program._graph_cache = (repr(program.operations), G)\n    return G")]),
  ("c13_serializer_global_array_counter", "C13", [(P, "        var_count = 0\n", "        global _VAR_COUNT\n        var_count = _VAR_COUNT\n"),
